@@ -745,6 +745,11 @@ fn plan_base(prop: &str) -> Vec<Item> {
                 v.push(it("fs_cancel", &format!("pool=0,mode={},syncer=1", mode), Some(2), 3));
             }
             v.push(it("fs_cancel", "pool=1,mode=0,ahead=1", Some(2), 3));
+            // an operation queued behind the awaited future_sync depends on the awaiting task having its result (seed C08-k)
+            v.push(it("fs_cancel", "pool=0,mode=0,dep=1", Some(3), 4));
+            v.push(it("fs_cancel", "pool=1,mode=0,dep=1", Some(2), 3));
+            v.push(it("fs_cancel", "pool=1,mode=0,dep=1,sat=1", Some(1), 2));
+            v.push(it("fs_cancel", "pool=0,mode=0,dep=1,ahead=1", Some(2), 3));
             // no pool thread: the awaiting task drains the queue while it waits for its slot, an earlier operation suspends, and
             // that operation's wake-up has to bring the task back (seed C08-j)
             for mode in [0, 4] {
